@@ -759,6 +759,17 @@ static RunResult dkg_execute_inner(const Plan &plan, const std::vector<uint64_t>
 						pos += pat.size();
 					}
 				}
+				// whatever the reason (a replaced complaint value can read as a duplicated complaint, which disqualifies its
+				// sender without any "complaint against" line): the honest parties' own record of the qualified set decides
+				{
+					const std::string &lg0 = W.out[H[0]].errlog; size_t qp = lg0.rfind(": Qual = {");
+					if (qp != std::string::npos)
+					{
+						size_t qe = lg0.find('}', qp);
+						std::string qs = lg0.substr(qp, qe == std::string::npos ? std::string::npos : qe - qp);
+						if (qs.find(" P_" + std::to_string(z) + " ") == std::string::npos) early = true;
+					}
+				}
 				if (early) { W.res.cnt["probe.flip_zeroed_party_disqualified"]++; continue; }
 				W.res.cnt[late ? "probe.flip_zeroed_opening_reconstructed" : "probe.flip_zeroed_broadcast_harmless"]++;
 				if (W.out[z].coin != W.out[H[0]].coin)
